@@ -417,6 +417,10 @@ def aggregate(prop, tier, seed, results, t_start, write_baseline, extra_mod, qui
         cross = r.get('cross')
         if cross:
             cross_evals += cross['evaluations']
+            if cross.get('skipped', 0) > 3 and cross['skipped'] > cross['evaluations']:
+                # the bounded stand-in / cross-check could not even evaluate most of its generated inputs: that is a fault of the
+                # harness (a generator and a shape builder that disagree), never a silent pass
+                checker_errors.append(f"{q}[{shp}] native evaluation skipped {cross['skipped']} of {cross['skipped'] + cross['evaluations']} generated inputs")
         if r.get('empty_domain'):
             continue
         if not r['clauses'] and not st['errors']:
